@@ -1225,3 +1225,51 @@ def c01e(F, R):
             R.ok(f"Arith|{v}", detail=f"{v.lower()} rd, x0, x0 = {want}")
         else:
             R.bad(f"Arith|{v}", f"`{v.lower()} rd, x0, x0` is claimed to produce {c}; RV32IM gives {op}(0, 0) = {want}", loc(ar))
+
+
+@rule("C12", "C12.e.monotone-predecessor-filter", floor=6)
+@rule("C06", "C06.t.monotone-predecessor-filter", floor=6)
+def c12e(F, R):
+    """in the fixed-point loops a neighbour is filtered out of the meet only by membership in a grow-only `visited` set (a filter on the facts themselves is not monotone: the iteration can oscillate forever)"""
+    for f in (_avpass_run(F), _livepass_run(F)):
+        fname = short(root_fn(f["path"])) + "@" + ("AvailableValuePass" if "available" in f["path"] else "LivenessPass")
+        loops = [l for l in walk(f["hir"]["value"], pats=False) if l.get("k") == "Loop" and l.get("src") == "While"]
+        if not loops:
+            R.bad(f"{fname}|loop", "UNEXTRACTABLE: no while loop", f["sp"])
+            continue
+        loop = loops[0]
+        outer_lets = set()
+        for st in f["hir"]["value"].get("stmts", []):
+            if st.get("k") == "Let" and st["pat"].get("k") == "PBinding":
+                outer_lets.add(st["pat"]["name"])
+        n = 0
+        for call, cl in reduce_closures(f):
+            # walk the chain below the reduce for filters
+            r = call["recv"]
+            while r.get("k") == "MethodCall":
+                if r["name"] == "filter" and r["args"]:
+                    n += 1
+                    c = peel(r["args"][0])
+                    body = peel(c["body"]) if c.get("k") == "Closure" else {}
+                    key = f"{fname}|filter{n}"
+                    okk = False
+                    why = "the filter is not a membership test"
+                    if body.get("k") == "MethodCall" and body["name"] in ("contains", "contains_key"):
+                        s = peel(body["recv"])
+                        if s.get("k") == "Path" and s.get("res_kind") == "Local" and s["res"] in outer_lets:
+                            S = s["res"]
+                            muts = {m["name"] for m in walk(loop, pats=False) if m.get("k") == "MethodCall" and ekey(m["recv"]) == S} - {"contains", "contains_key", "len", "is_empty"}
+                            reassigned = any(a.get("k") == "Assign" and ekey(a["l"]) == S for a in walk(loop, pats=False))
+                            if muts <= {"insert"} and "insert" in muts and not reassigned:
+                                okk = True
+                            else:
+                                why = f"`{S}` is not grow-only inside the loop (mutated by {sorted(muts)}{', reassigned' if reassigned else ''})"
+                        else:
+                            why = "the tested set is not a local declared before the loop"
+                    if okk:
+                        R.ok(key, detail=f"neighbours filtered by membership in the grow-only set `{S}`", where=loc(r))
+                    else:
+                        R.bad(f"{fname}|filter|{ekey(body)[:50]}", f"predecessors are filtered with `{ekey(body)[:70]}`: {why}. Facts both grow and shrink during the iteration, so such a filter can make the loop oscillate and never terminate", loc(r))
+                r = r["recv"]
+        if n == 0:
+            R.ok(f"{fname}|no-filter", detail="no neighbour filter in the meets")
